@@ -1,3 +1,156 @@
 import B6.Driver.Common
-/-! Driver for C37 — stub (the check for this property is not built yet). -/
-def main : IO Unit := B6.Driver.run { σ := Unit, init := (), step := fun s _ _ => (s, .bad) }
+import B6.Driver.SkelIO
+import B6.Model.Validate
+/-!
+Driver for C37 — every feature in a world is valid.
+
+feature  `p1=;loc=3` | `p1=;noloc` | `w10=p1,p2,p3,p1` | `a20=w10,w11` | `r1=p1,w10` | `c1=…`
+ops
+  `oracle [<slots>=<v|i><c|w> …]`   what S2 says about the loop through the slots (`1.2.3`): valid /
+                                    invalid, counter-clockwise / clockwise; answer `ok`. The table
+                                    covers every closed path of the case (in both directions).
+  `build basic invert=<0|1> src=[feature…]`   `BasicWorldBuilder.Finish` (FailClockwisePaths = !invert)
+        answer `[feature…]` (the built world, sorted by ID) | `crash`
+  `validator pts=[feature…] src=[feature…]`   `compact.Validator` fed in the order of `src`
+        answer `[feature…]` in emission order
+  `mw.new` → `ok`; `mw.add <feature>` → `ok [feature…]` | `err [feature…]` (the world afterwards)
+
+Property predicate (evaluated on the implementation's answer): every feature of the built / edited
+world is `valid` in that world; for the validator: in the world of its points and emitted features.
+-/
+open B6.Driver B6.Driver.SkelIO B6.Model.Validate
+namespace B6.Driver.C37
+abbrev Id := B6.Model.Validate.Id
+
+def parseFeat (s : String) : Option Feat :=
+  match s.splitOn ";" with
+  | [] => none
+  | head :: attrs =>
+    match head.splitOn "=" with
+    | [a, b] => do
+      let id ← parseId a
+      let refs ← parseIdsComma b
+      let loc := (attrs.filterMap fun a => if a.startsWith "loc=" then parseNat? (sdrop a 4) else none).head?
+      if id.1 == 0 then some ⟨id, .point loc⟩
+      else if id.1 == 1 then some ⟨id, .path refs⟩
+      else if id.1 == 2 then some ⟨id, .area (refs.map fun r => [r])⟩
+      else some ⟨id, .other refs⟩
+    | _ => none
+
+def renderFeat (f : Feat) : String :=
+  let ids := fun (xs : List Id) => ",".intercalate (xs.map renderId)
+  match f.geo with
+  | .point (some k) => renderId f.id ++ "=;loc=" ++ toString k
+  | .point none => renderId f.id ++ "=;noloc"
+  | .path refs => renderId f.id ++ "=" ++ ids refs
+  | .area polys => renderId f.id ++ "=" ++ ids polys.flatten
+  | .other refs => renderId f.id ++ "=" ++ ids refs
+
+def parseFeats (s : String) : Option (List Feat) := do
+  let ws ← parseBracket s
+  ws.mapM parseFeat
+
+def sortFeats (fs : List Feat) : List Feat := sortBy (fun (a b : Feat) => idLt a.id b.id) fs
+
+def renderFeats (fs : List Feat) : String := renderList (fs.map renderFeat)
+
+def segment (line key : String) : Option String :=
+  match line.splitOn (key ++ "=[") with
+  | [_, rest] => match rest.splitOn "]" with
+    | inner :: _ => some ("[" ++ inner ++ "]")
+    | [] => none
+  | _ => none
+
+abbrev Table := List (List Nat × Bool × Bool)
+
+def parseTable (s : String) : Option Table := do
+  let ws ← parseBracket s
+  ws.mapM fun w => match w.splitOn "=" with
+    | [k, v] => do
+      let slots ← (k.splitOn ".").mapM parseNat?
+      match v.toList with
+      | [a, b] => some (slots, a == 'v', b == 'c')
+      | _ => none
+    | _ => none
+
+/-- the oracle read from the table; loops the table does not know answer `dflt` -/
+def oracleOf (t : Table) (dflt : Bool) : Oracle :=
+  { loopValid := fun l => match t.find? (fun e => e.1 == l) with | some e => e.2.1 | none => dflt,
+    ccw := fun l => match t.find? (fun e => e.1 == l) with | some e => e.2.2 | none => dflt }
+
+structure St where
+  table : Table := []
+  mw : World := []
+
+/-- run `f` with the table's oracle under both defaults: a difference means a loop the table does not
+cover mattered -/
+def withOracle {β : Type} [BEq β] (t : Table) (f : Oracle → β) : Option β :=
+  let a := f (oracleOf t true)
+  let b := f (oracleOf t false)
+  if a == b then some a else none
+
+def step (st : St) (op impl : String) : St × Verdict :=
+  match words op with
+  | "oracle" :: _ =>
+    match parseTable (sdrop op 7) with
+    | some t => ({ st with table := t }, if impl == "ok" then .ok else .diff "ok")
+    | none => (st, .bad)
+  | "build" :: "basic" :: inv :: _ =>
+    match (segment op "src").bind parseFeats with
+    | none => (st, .bad)
+    | some src =>
+      let invert := inv == "invert=1"
+      let model := withOracle st.table fun O => (finish O invert src).map fun w => renderFeats (sortFeats w)
+      match model with
+      | none => (st, .bad)
+      | some m =>
+        let ms := match m with | some s => s | none => "crash"
+        match parseFeats impl with
+        | none => (st, .propfail "build-crashed")
+        | some w =>
+          match withOracle st.table fun O => allValid O w with
+          | none => (st, .bad)
+          | some true => (st, if impl == ms then .ok else .diff ms)
+          | some false => (st, .propfail "build_all_valid")
+  | "validator" :: _ =>
+    match (segment op "pts").bind parseFeats, (segment op "src").bind parseFeats with
+    | some pts, some src =>
+      let model := withOracle st.table fun O => renderFeats ((Validator.run O ⟨pts, [], []⟩ src).2)
+      match model, parseFeats impl with
+      | some m, some out =>
+        match withOracle st.table fun O => out.all (valid O (pts ++ out)) with
+        | none => (st, .bad)
+        | some true => (st, if impl == m then .ok else .diff m)
+        | some false => (st, .propfail "validator_all_valid")
+      | some _, none => (st, .propfail "validator-crashed")
+      | none, _ => (st, .bad)
+    | _, _ => (st, .bad)
+  | ["mw.new"] => ({ st with mw := [] }, if impl == "ok" then .ok else .diff "ok")
+  | ["mw.add", fs] =>
+    match parseFeat fs with
+    | none => (st, .bad)
+    | some f =>
+      let model := withOracle st.table fun O => match addFeature O st.mw f with
+        | .ok w => "ok " ++ renderFeats (sortFeats w)
+        | .rejected => "err " ++ renderFeats (sortFeats st.mw)
+        | .panic => "panic"
+      let implWorld := match impl.splitOn " [" with
+        | [_, rest] => parseFeats ("[" ++ rest)
+        | _ => none
+      match model, implWorld with
+      | some m, some w =>
+        -- resynchronise on the implementation's world (in the model's order where possible)
+        let st' := { st with mw := w }
+        match withOracle st.table fun O => allValid O w with
+        | none => (st', .bad)
+        | some true => (st', if impl == m then .ok else .diff m)
+        | some false => (st', .propfail "edits_preserve_valid")
+      | some _, none => (st, .propfail "add-crashed")
+      | none, _ => (st, .bad)
+  | _ => (st, .bad)
+
+def family : Family := { σ := St, init := {}, step := step }
+
+end B6.Driver.C37
+
+def main : IO Unit := B6.Driver.run B6.Driver.C37.family
